@@ -63,7 +63,7 @@ func allocStores(fn *ssa.Function, name string) []string {
 func C13(p *ir.Program, r *report.R) {
 	c := C{p, r}
 	r.Floor = 55
-	r.Explain = "Decided: (i) the ORDER of the durable writes of a commit — in LinkApplication.CommitBlock, ConsensusState.finalizeCommit, BlockExecutor.ApplyBlock, BlockStore.SaveBlock (data batch before the height descriptor before the in-memory height), wrappedTrie.Commit (undo log synced before the data batch) and SaveWAL (truncate before height); (ii) the recovery code accepts exactly the lags that order can produce (node.NewNode re-applies iff status lags the app by one; NewKeyValueDBWithCache handles kv-height in {h, h+1, 0} and panics otherwise); (iii) error discipline: no error of the storage layer is dropped or logged-and-continued on the commit path (each call site classified: propagated / fatal / dropped / swallowed); (iv) pruning: every delete in both DeleteHistoricalData loops is guarded by the wrap-free bound h+keep <= max, the early return uses the same inequality, the siblings agree, and the loaded start height is the one used. NOT decided: atomicity of each backend's batch on disk (C19), content equality of what is read back, consequences of the writes SaveBlock performs outside its batch."
+	r.Explain = "Decided: (i) the ORDER of the durable writes of a commit — in LinkApplication.CommitBlock, ConsensusState.finalizeCommit, BlockExecutor.ApplyBlock, BlockStore.SaveBlock (data batch before the height descriptor before the in-memory height), wrappedTrie.Commit (undo log synced before the data batch) and SaveWAL (truncate before height); (ii) the recovery code accepts exactly the lags that order can produce (node.NewNode re-applies iff status lags the app by one; NewKeyValueDBWithCache handles kv-height in {h, h+1, 0} and panics otherwise); (iii) error discipline: no error of the storage layer is dropped or logged-and-continued on the commit path (each call site classified: propagated / fatal / dropped / swallowed); (iv) pruning: every delete in both DeleteHistoricalData loops is guarded by the wrap-free bound h+keep <= max, the early return uses the same inequality, the siblings agree, and the loaded start height is the one used. ADDED after seeded-change testing: Flat-state undo log: every batch operation of wrappedTrie.Commit is preceded in its iteration by the undo record's key and by the old value or the did-not-exist marker; the batch is committed only after saveWAL succeeded; StateDB.Commit resets the log before any trie commit; rebuildLastState reads a length field or a record body only under a bounds check (torn tail = stop). NOT decided: atomicity of each backend's batch on disk (C19), content equality of what is read back, consequences of the writes SaveBlock performs outside its batch."
 	r.Trusted = []string{"libs/db backends (C19)", "os.File.Sync/Truncate"}
 
 	// ---- (i) order ------------------------------------------------------------
@@ -275,6 +275,95 @@ func C13(p *ir.Program, r *report.R) {
 		}
 		r.Check("K1", "consensus.LoadValidators/fallback", p.Pos(lv.Pos()), okFB, "a record without a set is resolved through its LastHeightChanged")
 	}
+
+	// ---- flat-state undo log (state/keyvalue.go) ---------------------------------------------
+	// In key/value storage mode a block's state writes are applied in place; a crash between the
+	// state commit and SaveBlock is undone from the undo log. Necessary shape:
+	//  (U1) every key of the batch gets an undo record (key, then old value or the zero-length
+	//       "did not exist" marker) before its batch operation is queued;
+	//  (U2) the undo records are written and synced before the batch is committed;
+	//  (U3) saveWAL syncs on every successful path;
+	//  (U4) the reader tolerates a torn tail: every read of the log buffer is bounds-checked.
+	{
+		cm := p.Func("state", "wrappedTrie.Commit")
+		name := "state.(*wrappedTrie).Commit"
+		isKeyRec := func(in ssa.Instruction) bool {
+			st, ok := in.(*ssa.Store)
+			return ok && ir.Render(st.Addr) == "&kvTrie.walBz" && ir.Match("append(kvTrie.walBz,*key*)", ir.Render(st.Val)) && !strings.Contains(ir.Render(st.Val), "lenBuf")
+		}
+		isOldRec := func(in ssa.Instruction) bool {
+			st, ok := in.(*ssa.Store)
+			if !ok || ir.Render(st.Addr) != "&kvTrie.walBz" {
+				return false
+			}
+			v := ir.Render(st.Val)
+			// second length field of the record: either the old value follows or the length is zero
+			return ir.Match("append(kvTrie.walBz,db.DB.Load(*)#0)", v) || (ir.Match("append(kvTrie.walBz,state.lenBuf)", v) && ir.HasFact(ir.FactsAt(in), "le(len(db.DB.Load(*)#0),0)"))
+		}
+		isOp := ir.CallMatcher("db.Batch.Set", "db.Batch.Delete")
+		var loop *ir.Loop
+		for _, l := range ir.Loops(cm) {
+			l := l
+			for b := range l.Body {
+				for _, in := range b.Instrs {
+					if isOp(in) {
+						loop = &l
+					}
+				}
+			}
+		}
+		if loop == nil {
+			r.Undecided("K2", name+"/undo-log/loop", p.Pos(cm.Pos()), "batch loop not found")
+		} else {
+			from := ir.Point{B: loop.Header, I: -1}
+			found, hit, tr := ir.FindPath(ir.PathQuery{From: from, Target: isOp, Avoid: isKeyRec})
+			d := "every batch operation is preceded in its iteration by the undo record's key"
+			if found {
+				d += fmt.Sprintf(" — but %s (%s) is reached without it, blocks %v", ir.RenderInstr(hit), p.InstrPos(hit), tr)
+			}
+			r.Check("K2", name+"/undo-log/key-record-for-every-key", p.Pos(cm.Pos()), !found, d)
+			found, hit, tr = ir.FindPath(ir.PathQuery{From: from, Target: isOp, Avoid: isOldRec})
+			d = "every batch operation is preceded in its iteration by the old value or the did-not-exist marker"
+			if found {
+				d += fmt.Sprintf(" — but %s (%s) is reached without it, blocks %v", ir.RenderInstr(hit), p.InstrPos(hit), tr)
+			}
+			r.Check("K2", name+"/undo-log/old-value-or-absent-marker", p.Pos(cm.Pos()), !found, d)
+		}
+		for _, call := range ir.Calls(cm, "db.Batch.Commit") {
+			c.Guards(name, "batch commit", call.(ssa.Instruction), G{"undo-log-synced-first", "eq(state.wrappedDB.saveWAL(kvTrie.db,kvTrie.walBz),nil)"})
+		}
+		c.MustFind("K2", name+"/batch commit", cm, len(ir.Calls(cm, "db.Batch.Commit")), "Batch.Commit call")
+		// the state commit truncates the previous undo log and records the height first
+		sc := p.Func("state", "StateDB.Commit")
+		c.Order("state.(*StateDB).Commit", sc, "state.wrappedDB.SaveWAL", "state.stateObject.CommitTrie")
+		c.Order("state.(*StateDB).Commit", sc, "state.wrappedDB.SaveWAL", "state.Trie.Commit")
+		// (U4) reader
+		rb := p.Func("state", "rebuildLastState")
+		nRead := 0
+		ir.Instrs(rb, func(in ssa.Instruction) {
+			switch x := in.(type) {
+			case *ssa.Call:
+				if ir.Match("binary.bigEndian.Uint32", ir.CalleeName(x)) {
+					nRead++
+					a := Arg(x, 1)
+					ok, tr := ir.EveryPathHas(in, "le(4,len("+a+"))", "lt(3,len("+a+"))")
+					r.Check("K1", "state.rebuildLastState/torn-tail/length-field", p.InstrPos(in), ok, fmt.Sprintf("a length field is read only when 4 bytes remain (else the tail is torn: stop); path without the check: %v", tr))
+				}
+			case *ssa.Slice:
+				if x.High == nil || !strings.Contains(ir.Render(x.High), "binary.bigEndian.Uint32") {
+					return
+				}
+				nRead++
+				hi, base := ir.Render(x.High), ir.Render(x.X)
+				_ = hi
+				ln := "*binary.bigEndian.Uint32(binary.BigEndian," + base + ")*"
+				ok, tr := ir.EveryPathHas(in, "le("+ln+",*len("+base+")*)", "lt("+ln+",*len("+base+")*)")
+				r.Check("K1", "state.rebuildLastState/torn-tail/record-body", p.InstrPos(in), ok, fmt.Sprintf("a record body %s[..:%s] is sliced only when that many bytes remain; path without the check: %v", short(base, 40), short(hi, 60), tr))
+			}
+		})
+		c.MustFind("K1", "state.rebuildLastState/torn-tail", rb, nRead, "reads of the undo log buffer")
+	}
+
 }
 
 var _ = report.Discharged
